@@ -234,3 +234,246 @@ Proof.
     inversion Hi as [Hir]. rewrite Hir in Q. cbn [app] in Q. inversion Q; subst.
     exists r. repeat split; auto.
 Qed.
+
+(** ** streams left open: the operation ends after a payload that announced more (its context ended, say) ** *)
+
+Definition cons_bodies (bs : list body) (o : option (list body * pstate)) : option (list body * pstate) :=
+  fold_right cons_body o bs.
+
+Lemma cons_bodies_some bs l st : cons_bodies bs (Some (l, st)) = Some (bs ++ l, st).
+Proof. induction bs as [|b bs IH]; cbn; [reflexivity|]. unfold cons_bodies in IH. now rewrite IH. Qed.
+
+Lemma ends_open_snoc l : ends_open (l ++ [TBoundary]) = true.
+Proof. unfold ends_open. now rewrite rev_app_distr. Qed.
+
+Lemma ends_open_cons x r : r <> [] -> ends_open (x :: r) = ends_open r.
+Proof.
+  intros H. unfold ends_open. cbn [rev]. destruct (rev r) as [|y ys] eqn:E; [|reflexivity].
+  exfalso. apply H. apply (f_equal (@rev tok)) in E. now rewrite rev_involutive in E.
+Qed.
+
+(** a flush that writes something and whose last payload announces more ends with the plain boundary *)
+Lemma flush_toks_open s : pending s <> [] -> last_hn s = true -> exists front, flush_toks s = front ++ [TBoundary].
+Proof.
+  unfold pending, flush_toks. intros Hp Hl. rewrite Hl.
+  destruct (m_initial s) as [p|]; destruct (m_deferred s) as [|d ds]; try (now elim Hp).
+  - exists [TBoundary; THeader; TInitial p; TCRLF]. reflexivity.
+  - exists ([TBoundary; THeader; TInitial p; TCRLF; TBoundary; THeader; TIncremental (d :: ds) true; TCRLF]). reflexivity.
+  - exists ([THeader; TIncremental (d :: ds) true; TCRLF]). reflexivity.
+Qed.
+
+Lemma all_true_last s rest : pending s <> [] -> forallb p_hasnext (pending s ++ rest) = true -> last_hn s = true.
+Proof.
+  intros Hp Ha. destruct (pending_last s Hp) as [a [p [E L]]]. rewrite L.
+  rewrite E, forallb_app, forallb_app in Ha. cbn in Ha.
+  destruct (p_hasnext p); [reflexivity|]. rewrite andb_false_r in Ha. cbn in Ha. rewrite ?andb_false_r in Ha. discriminate.
+Qed.
+
+Lemma open_gen acts : forall s st pre,
+  consistent s st -> st <> PClosed ->
+  forallb p_hasnext (pending s ++ adds acts) = true ->
+  (st = ExpHeader -> ends_open pre = true) ->
+  (st = ExpBoundary -> pending s ++ adds acts <> []) ->
+  exists bs,
+    (forall rest, parse_toks st (mrun s (acts ++ [MDone]) ++ rest) = cons_bodies bs (parse_toks ExpHeader rest)) /\
+    initial_of bs ++ incrementals_of bs = pending s ++ adds acts /\
+    (st = ExpHeader -> initial_of bs = []) /\
+    (st = ExpBoundary -> exists p r, bs = BInitial p :: r /\ initial_of r = []) /\
+    ends_open (pre ++ mrun s (acts ++ [MDone])) = true.
+Proof.
+  induction acts as [|a acts IH]; intros s st pre C Hst Hall Hpre Hne.
+  - (* Done at the end *)
+    cbn [app mrun mstep adds flat_map] in *. rewrite !app_nil_r in *.
+    destruct (pending s) as [|x xs] eqn:Ep.
+    + destruct st; [now elim (Hne eq_refl)| |now elim Hst].
+      assert (Hi : m_initial s = None /\ m_deferred s = []).
+      { unfold pending in Ep. destruct (m_initial s); [discriminate|]. cbn in Ep. now split. }
+      destruct Hi as [Hi Hd]. unfold flush_toks. rewrite Hi, Hd. cbn [app]. rewrite app_nil_r.
+      exists []. repeat split; try reflexivity; try (intros; discriminate). exact (Hpre eq_refl).
+    + assert (Hp : pending s <> []) by (rewrite Ep; discriminate).
+      assert (Hl : last_hn s = true) by (apply (all_true_last s []); [exact Hp|now rewrite app_nil_r, Ep]).
+      destruct (flush_toks_open s Hp Hl) as [front Ef].
+      assert (Eo : ends_open (pre ++ flush_toks s) = true) by (rewrite Ef, app_assoc; apply ends_open_snoc).
+      rewrite <- Ep in *. clear Ep x xs.
+      destruct st; [| |now elim Hst].
+      * destruct C as [[_ [Hi Hd]]|[Hf Hi]]; [unfold pending in Hp; rewrite Hi, Hd in Hp; now elim Hp|].
+        destruct (m_initial s) as [p|] eqn:Ei; [|now elim Hi].
+        destruct (m_deferred s) as [|d ds] eqn:Ed.
+        -- exists [BInitial p]. split; [|split; [|split; [|split]]].
+           ++ intros rest. rewrite (parse_flush_initial s p rest Ei), Ed. unfold nxt. rewrite Hl. reflexivity.
+           ++ unfold pending. rewrite Ei, Ed. reflexivity.
+           ++ discriminate.
+           ++ intros _. exists p, []. now split.
+           ++ exact Eo.
+        -- exists [BInitial p; BIncr (d :: ds) true]. split; [|split; [|split; [|split]]].
+           ++ intros rest. rewrite (parse_flush_initial s p rest Ei), Ed. unfold nxt. rewrite Hl. reflexivity.
+           ++ unfold pending. rewrite Ei, Ed. cbn. now rewrite app_nil_r.
+           ++ discriminate.
+           ++ intros _. exists p, [BIncr (d :: ds) true]. now split.
+           ++ exact Eo.
+      * destruct C as [Hf Hi].
+        destruct (m_deferred s) as [|d ds] eqn:Ed; [unfold pending in Hp; rewrite Hi, Ed in Hp; now elim Hp|].
+        exists [BIncr (d :: ds) true]. split; [|split; [|split; [|split]]].
+        -- intros rest. rewrite (parse_flush_deferred s d ds rest Hi Ed). unfold nxt. rewrite Hl. reflexivity.
+        -- unfold pending. rewrite Hi, Ed. cbn. now rewrite app_nil_r.
+        -- reflexivity.
+        -- discriminate.
+        -- exact Eo.
+  - (* a flush (tick, or an early Done) or an Add *)
+    assert (T : forall s st pre, consistent s st -> st <> PClosed ->
+              forallb p_hasnext (pending s ++ adds acts) = true ->
+              (st = ExpHeader -> ends_open pre = true) ->
+              (st = ExpBoundary -> pending s ++ adds acts <> []) ->
+              exists bs,
+                (forall rest, parse_toks st ((flush_toks s ++ mrun (flushed s) (acts ++ [MDone])) ++ rest) = cons_bodies bs (parse_toks ExpHeader rest)) /\
+                initial_of bs ++ incrementals_of bs = pending s ++ adds acts /\
+                (st = ExpHeader -> initial_of bs = []) /\
+                (st = ExpBoundary -> exists p r, bs = BInitial p :: r /\ initial_of r = []) /\
+                ends_open (pre ++ flush_toks s ++ mrun (flushed s) (acts ++ [MDone])) = true).
+    { clear s st pre C Hst Hall Hpre Hne. intros s st pre C Hst Hall Hpre Hne.
+      destruct (pending s) as [|x xs] eqn:Ep.
+      - assert (Hi : m_initial s = None /\ m_deferred s = []).
+        { unfold pending in Ep. destruct (m_initial s); [discriminate|]. cbn in Ep. now split. }
+        destruct Hi as [Hi Hd]. unfold flush_toks. rewrite Hi, Hd. cbn [app].
+        assert (Es : flushed s = s) by (destruct s; cbn in *; now subst).
+        rewrite Es. destruct (IH s st pre C Hst) as [bs (P & Q & R & S & E)].
+        + now rewrite Ep.
+        + exact Hpre.
+        + intros H. rewrite Ep. exact (Hne H).
+        + exists bs. rewrite Ep in Q. auto.
+      - assert (Hp : pending s <> []) by (rewrite Ep; discriminate).
+        rewrite <- Ep in *. clear Ep x xs.
+        assert (Hl : last_hn s = true) by (exact (all_true_last s (adds acts) Hp Hall)).
+        destruct (flush_toks_open s Hp Hl) as [front Ef].
+        assert (Ha : forallb p_hasnext (adds acts) = true) by (rewrite forallb_app in Hall; now apply andb_prop in Hall).
+        assert (Hfirst : m_first s = false).
+        { destruct st; cbn [consistent] in C; [destruct C as [[_ [Hi Hd]]|[Hf _]]; [unfold pending in Hp; rewrite Hi, Hd in Hp; now elim Hp|exact Hf]|now destruct C|now elim Hst]. }
+        destruct (IH (flushed s) ExpHeader (pre ++ flush_toks s)) as [bs (P & Q & R & _ & E)].
+        + split; [exact Hfirst|reflexivity].
+        + discriminate.
+        + unfold pending; cbn [flushed m_initial m_deferred app]. exact Ha.
+        + intros _. rewrite Ef, app_assoc. apply ends_open_snoc.
+        + discriminate.
+        + specialize (R eq_refl). unfold pending in Q; cbn [flushed m_initial m_deferred app] in Q. rewrite R in Q. cbn [app] in Q.
+          rewrite <- app_assoc in E.
+          destruct st; [| |now elim Hst].
+          * destruct C as [[_ [Hi Hd]]|[_ Hi]]; [unfold pending in Hp; rewrite Hi, Hd in Hp; now elim Hp|].
+            destruct (m_initial s) as [p|] eqn:Ei; [|now elim Hi].
+            destruct (m_deferred s) as [|d ds] eqn:Ed.
+            -- exists (BInitial p :: bs). split; [|split; [|split; [|split]]].
+               ++ intros rest. rewrite <- app_assoc, (parse_flush_initial s p _ Ei), Ed. unfold nxt. rewrite Hl, P. reflexivity.
+               ++ cbn [initial_of incrementals_of flat_map app]. fold (initial_of bs) (incrementals_of bs). rewrite R. cbn [app].
+                  unfold pending. rewrite Ei, Ed. cbn [app]. now rewrite Q.
+               ++ discriminate.
+               ++ intros _. exists p, bs. now split.
+               ++ exact E.
+            -- exists (BInitial p :: BIncr (d :: ds) true :: bs). split; [|split; [|split; [|split]]].
+               ++ intros rest. rewrite <- app_assoc, (parse_flush_initial s p _ Ei), Ed. unfold nxt. rewrite Hl, P. reflexivity.
+               ++ cbn [initial_of incrementals_of flat_map app]. fold (initial_of bs) (incrementals_of bs). rewrite R. cbn [app].
+                  unfold pending. rewrite Ei, Ed. cbn [app]. rewrite Q. reflexivity.
+               ++ discriminate.
+               ++ intros _. exists p, (BIncr (d :: ds) true :: bs). split; [reflexivity|]. cbn [initial_of flat_map app]. exact R.
+               ++ exact E.
+          * destruct C as [_ Hi].
+            destruct (m_deferred s) as [|d ds] eqn:Ed; [unfold pending in Hp; rewrite Hi, Ed in Hp; now elim Hp|].
+            exists (BIncr (d :: ds) true :: bs). split; [|split; [|split; [|split]]].
+            -- intros rest. rewrite <- app_assoc, (parse_flush_deferred s d ds _ Hi Ed). unfold nxt. rewrite Hl, P. reflexivity.
+            -- cbn [initial_of incrementals_of flat_map app]. fold (initial_of bs) (incrementals_of bs). rewrite R. cbn [app].
+               unfold pending. rewrite Hi, Ed. cbn [app]. now rewrite Q.
+            -- intros _. cbn [initial_of flat_map app]. exact R.
+            -- discriminate.
+            -- exact E. }
+    destruct a as [p| |]; [|exact (T s st pre C Hst Hall Hpre Hne)|exact (T s st pre C Hst Hall Hpre Hne)].
+    cbn [app mrun mstep]. destruct (m_first s) eqn:Ef.
+    + destruct st; cbn [consistent] in C; [|destruct C as [Hf _]; congruence|now elim Hst].
+      destruct C as [[_ [Hi Hd]]|[Hf _]]; [|congruence].
+      cbn [app].
+      destruct (IH {| m_first := false; m_initial := Some p; m_deferred := m_deferred s |} ExpBoundary pre) as [bs (P & Q & R & S & E)].
+      * right. split; [reflexivity|discriminate].
+      * discriminate.
+      * unfold pending in *. cbn [m_initial m_deferred]. rewrite Hi, Hd in *. cbn [adds flat_map app] in *. exact Hall.
+      * discriminate.
+      * intros _. unfold pending. cbn [m_initial m_deferred app]. discriminate.
+      * exists bs. split; [exact P|]. split; [|split; [exact R|split; [exact S|exact E]]].
+        rewrite Q. unfold pending. cbn [m_initial m_deferred]. rewrite Hi, Hd. reflexivity.
+    + cbn [app].
+      assert (Hp : pending {| m_first := false; m_initial := m_initial s; m_deferred := m_deferred s ++ [p] |} ++ adds acts
+                   = pending s ++ adds (MAdd p :: acts)).
+      { unfold pending. cbn [m_initial m_deferred adds flat_map]. now rewrite <- !app_assoc. }
+      destruct st; [| |now elim Hst].
+      * destruct C as [[Hf _]|[_ Hi]]; [congruence|].
+        destruct (IH {| m_first := false; m_initial := m_initial s; m_deferred := m_deferred s ++ [p] |} ExpBoundary pre) as [bs (P & Q & R & S & E)].
+        -- right. split; [reflexivity|exact Hi].
+        -- discriminate.
+        -- now rewrite Hp.
+        -- discriminate.
+        -- intros _. rewrite Hp. exact (Hne eq_refl).
+        -- exists bs. split; [exact P|]. split; [now rewrite Q, Hp|split; [exact R|split; [exact S|exact E]]].
+      * destruct C as [_ Hi].
+        destruct (IH {| m_first := false; m_initial := m_initial s; m_deferred := m_deferred s ++ [p] |} ExpHeader pre) as [bs (P & Q & R & S & E)].
+        -- split; [reflexivity|exact Hi].
+        -- discriminate.
+        -- now rewrite Hp.
+        -- exact Hpre.
+        -- discriminate.
+        -- exists bs. split; [exact P|]. split; [now rewrite Q, Hp|split; [exact R|split; [exact S|exact E]]].
+Qed.
+
+(** a stream that parses up to the closing boundary does not end with a plain boundary *)
+Lemma parse_closed_not_open (n : nat) : forall l st bs,
+  (List.length l <= n)%nat -> parse_toks st l = Some (bs, PClosed) -> st <> PClosed -> ends_open l = false.
+Proof.
+  induction n as [|n IH]; intros l st bs Hn P Hst.
+  - destruct l; [|cbn in Hn; lia]. cbn in P. injection P as _ E. now elim Hst.
+  - destruct l as [|t r]; [cbn in P; injection P as _ E; now elim Hst|].
+    destruct st; [| |now elim Hst].
+    + destruct t; try discriminate. cbn [parse_toks] in P.
+      destruct r as [|t2 r2]; [cbn in P; discriminate|].
+      rewrite ends_open_cons by discriminate. apply (IH _ ExpHeader bs); [cbn in *; lia|exact P|discriminate].
+    + destruct t; try discriminate. cbn [parse_toks] in P.
+      destruct r as [|x r]; [discriminate|]. destruct r as [|y r]; [destruct x; discriminate|]. destruct r as [|z r]; [destruct x, y; discriminate|].
+      assert (Tail : forall b o, cons_body b o = Some (bs, PClosed) -> exists bs', o = Some (bs', PClosed)).
+      { intros b o H. destruct o as [[l' st']|]; [|discriminate]. cbn in H. injection H as _ E. subst. now exists l'. }
+      rewrite !ends_open_cons by discriminate.
+      destruct x; try discriminate; destruct y; try discriminate; destruct z; try discriminate.
+      * (* initial, then a plain boundary *)
+        destruct (Tail _ _ P) as [bs' P']. destruct r as [|w r]; [cbn in P'; discriminate|].
+        rewrite ends_open_cons by discriminate. apply (IH _ ExpHeader bs'); [cbn in *; lia|exact P'|discriminate].
+      * destruct (Tail _ _ P) as [bs' P']. destruct r; [reflexivity|cbn in P'; discriminate].
+      * destruct (Tail _ _ P) as [bs' P']. destruct r as [|w r]; [cbn in P'; discriminate|].
+        rewrite ends_open_cons by discriminate. apply (IH _ ExpHeader bs'); [cbn in *; lia|exact P'|discriminate].
+      * destruct (Tail _ _ P) as [bs' P']. destruct r; [reflexivity|cbn in P'; discriminate].
+      * destruct (Tail _ _ P) as [bs' P']. destruct r; [reflexivity|cbn in P'; discriminate].
+Qed.
+
+(** for an operation that runs to its end (hasNext false on its last payload) Done adds nothing: the stream is the
+    one [multipart_framing_lemma] is about *)
+Theorem multipart_done_complete_lemma acts p0 ps :
+  adds acts = p0 :: ps -> hn_pattern (p0 :: ps) = true -> mrun_done acts = mrun m0 (acts ++ [MDone]).
+Proof.
+  intros Ha Hh. destruct (multipart_framing_lemma acts p0 ps Ha Hh) as [bs [P _]].
+  unfold mrun_done. rewrite (parse_closed_not_open _ _ ExpBoundary _ (Nat.le_refl _) P); [reflexivity|discriminate].
+Qed.
+
+(** an operation that ends after payloads that all announced more (its context ended): wherever the flush ticks
+    fall, the stream parses; the initial payload once and first, every incremental payload once and in order, then
+    one part saying that nothing follows, then the closing boundary - which is the last token and occurs only there *)
+Theorem multipart_left_open_lemma acts p0 ps :
+  adds acts = p0 :: ps -> forallb p_hasnext (p0 :: ps) = true ->
+  exists bs, parse_toks ExpBoundary (mrun_done acts) = Some (BInitial p0 :: bs ++ [BFinal], PClosed)
+             /\ initial_of bs = [] /\ incrementals_of bs = ps.
+Proof.
+  intros Ha Hall.
+  destruct (open_gen acts m0 ExpBoundary []) as [bs (P & Q & _ & S & E)].
+  - left. repeat split.
+  - discriminate.
+  - unfold pending; cbn [m0 m_initial m_deferred app]. now rewrite Ha.
+  - discriminate.
+  - intros _. unfold pending; cbn [m0 m_initial m_deferred app]. rewrite Ha. discriminate.
+  - destruct (S eq_refl) as [p [r [-> Hr]]].
+    unfold mrun_done. cbn [app] in E. rewrite E. rewrite (P close_toks).
+    cbn [close_toks parse_toks cons_body]. rewrite cons_bodies_some.
+    unfold pending in Q; cbn [m0 m_initial m_deferred app] in Q. rewrite Ha in Q.
+    cbn [initial_of incrementals_of flat_map app] in Q. fold (initial_of r) (incrementals_of r) in Q. rewrite Hr in Q. cbn [app] in Q.
+    injection Q as -> Q2. exists r. split; [reflexivity|split; [exact Hr|exact Q2]].
+Qed.
